@@ -24,6 +24,7 @@ class Ctx:
 
     def __init__(self):
         self.funcs = {}      # python name -> (coq name, [param types], ret type, extra leading coq args)
+        self.signatures = {} # python name -> ([param names], {param name: default ast node})
         self.globals = {}    # python global name -> (coq term, type)
         self.fresh = 0
 
@@ -41,7 +42,7 @@ def ann_type(a):
     s = ast.unparse(a)
     table = {"str": "str", "int": "int", "bool": "bool", "float": "float",
              "Union[str, int]": "pyval", "np.ndarray": "names", "List[str]": "liststr",
-             "Optional[str]": "optstr"}
+             "Optional[str]": "optstr", "Union[float, Expr]": "num"}
     if s in table:
         return table[s]
     raise Unsupported(f"annotation {s}")
@@ -52,7 +53,17 @@ def coq_type(t):
         a, b = t[4:].split(",")
         return f"({coq_type(a)} * {coq_type(b)})"
     return {"str": "str", "int": "Z", "bool": "bool", "liststr": "list str", "pyval": "pyval",
-            "names": "list str", "optstr": "option str", "row": "list str"}[t]
+            "names": "list str", "optstr": "option str", "row": "list str", "num": "T",
+            "dict_sn": "list (str * T)"}[t]
+
+
+def is_self_call(e, names):
+    """self.<name>() with no arguments, name in names"""
+    return (isinstance(e, ast.Call) and isinstance(e.func, ast.Attribute) and isinstance(e.func.value, ast.Name)
+            and e.func.value.id == "self" and e.func.attr in names and not e.args and not e.keywords)
+
+
+CONVERTER_GETTERS = ("_get_unit_converter", "_get_quantity_converter")
 
 
 class FuncTr:
@@ -80,10 +91,21 @@ class FuncTr:
             if e.id in c.globals:
                 return [], c.globals[e.id][0], c.globals[e.id][1]
             raise Unsupported(f"unknown name {e.id}")
-        if isinstance(e, ast.Attribute) and isinstance(e.value, ast.Name) and e.value.id == "self":
+        if isinstance(e, ast.Attribute) and isinstance(e.value, ast.Name) and e.value.id in ("self", "cls"):
             if e.attr in self.self_attrs:
                 return [], self.self_attrs[e.attr][0], self.self_attrs[e.attr][1]
             raise Unsupported(f"self.{e.attr}")
+        if isinstance(e, ast.Attribute) and (is_self_call(e.value, CONVERTER_GETTERS) or
+                                             (isinstance(e.value, ast.Name) and env.get(e.value.id, (None, None))[1] == "converter")):
+            if e.attr in self.self_attrs:
+                return [], self.self_attrs[e.attr][0], self.self_attrs[e.attr][1]
+            raise Unsupported(f"converter attribute {e.attr}")
+        if is_self_call(e, CONVERTER_GETTERS):
+            return [], "tt", "converter"
+        if isinstance(e, ast.DictComp):
+            return self.dictcomp(e, env)
+        if isinstance(e, ast.Dict) and not e.keys:
+            return [], "[]", "dict_sn"
         if isinstance(e, ast.JoinedStr):
             binds, parts = [], []
             for v in e.values:
@@ -148,6 +170,15 @@ class FuncTr:
                 if sym is None:
                     raise Unsupported("int operator " + type(e.op).__name__)
                 return bl + br, f"({tl} {sym} {tr})%Z", "int"
+            if "num" in (tyl, tyr) and {tyl, tyr} <= {"num", "int"}:
+                fn = {ast.Add: "nadd", ast.Sub: "nsub", ast.Mult: "nmul", ast.Div: "ndiv"}.get(type(e.op))
+                if fn is None:
+                    raise Unsupported("numeric operator " + type(e.op).__name__)
+                if tyl == "int":
+                    tl = f"(nofz ops {tl})"
+                if tyr == "int":
+                    tr = f"(nofz ops {tr})"
+                return bl + br, f"({fn} ops {tl} {tr})", "num"
             if tyl == tyr == "str" and isinstance(e.op, ast.Add):
                 return bl + br, f"({tl} ++ {tr})%list", "str"
             raise Unsupported(f"binary operator on {tyl},{tyr}")
@@ -160,6 +191,31 @@ class FuncTr:
             b2, t2, ty2 = self.expr(e.elts[1], env)
             return b1 + b2, f"({t1}, {t2})", f"tup:{ty1},{ty2}"
         raise Unsupported("expression " + ast.dump(e)[:120])
+
+    def dictcomp(self, e, env):
+        """{k: f(k, v) for k, v in D.items()}  (key kept) -> dmap_res"""
+        if len(e.generators) != 1:
+            raise Unsupported("dict comprehension form")
+        g = e.generators[0]
+        if g.ifs or g.is_async or not (isinstance(g.target, ast.Tuple) and len(g.target.elts) == 2
+                                       and all(isinstance(x, ast.Name) for x in g.target.elts)):
+            raise Unsupported("dict comprehension form")
+        it = g.iter
+        if not (isinstance(it, ast.Call) and isinstance(it.func, ast.Attribute) and it.func.attr == "items" and not it.args):
+            raise Unsupported("dict comprehension iterable")
+        kname, vname = g.target.elts[0].id, g.target.elts[1].id
+        if not (isinstance(e.key, ast.Name) and e.key.id == kname):
+            raise Unsupported("dict comprehension key is not the iteration key")
+        bd, td, tyd = self.expr(it.func.value, env)
+        self.need(tyd, "dict_sn")
+        kv, vv = self.ctx.gensym(kname), self.ctx.gensym(vname)
+        env2 = dict(env)
+        env2[kname] = (kv, "str")
+        env2[vname] = (vv, "num")
+        bv, tv, tyv = self.expr(e.value, env2)
+        self.need(tyv, "num")
+        nm = self.ctx.gensym("dc")
+        return bd + [(nm, f"(dmap_res (fun {kv} {vv} => {self.wrap(bv, 'OK ' + tv)}) {td})")], nm, "dict_sn"
 
     def expr_bool(self, e, env):
         b, t, ty = self.expr(e, env)
@@ -196,10 +252,15 @@ class FuncTr:
                 t = f"(d_mem_zs {tr} {tl})"
             elif tyl == "str" and tyr == "dict_sz":
                 t = f"(d_mem_sz {tr} {tl})"
+            elif tyl == "str" and tyr == "dict_sn":
+                t = f"(d_mem_sn {tr} {tl})"
             else:
                 raise Unsupported(f"membership {tyl} in {tyr}")
             return bl + br, (f"(negb {t})" if neg else t), "bool"
         br, tr, tyr = self.expr(r, env)
+        if tyl == "num" and tyr == "int" and tr == "(0)%Z" and isinstance(op, (ast.Eq, ast.NotEq)):
+            t = f"(niszero ops {tl})"
+            return bl + br, (f"(negb {t})" if neg else t), "bool"
         if tyl != tyr:
             raise Unsupported(f"comparison between {tyl} and {tyr}")
         if tyl == "str" and isinstance(op, (ast.Eq, ast.NotEq)):
@@ -236,12 +297,35 @@ class FuncTr:
             return bv + bs + [(nm, f"(d_get_zs {tv} {ts})")], nm, "str"
         if tyv == "dict_sz" and tys == "str":
             return bv + bs + [(nm, f"(d_get_sz {tv} {ts})")], nm, "int"
+        if tyv == "dict_sn" and tys == "str":
+            return bv + bs + [(nm, f"(d_get_sn {tv} {ts})")], nm, "num"
         raise Unsupported(f"subscript {tyv}[{tys}]")
 
     def call(self, e, env):
         c = self.ctx
         f = e.func
-        if e.keywords:
+        # ---- calls routed to translated functions: converter methods, self.method(...)
+        routed = None
+        if isinstance(f, ast.Attribute) and (is_self_call(f.value, CONVERTER_GETTERS) or
+                                             (isinstance(f.value, ast.Name) and env.get(f.value.id, (None, None))[1] == "converter")):
+            routed = f.attr
+        elif isinstance(f, ast.Attribute) and isinstance(f.value, ast.Name) and f.value.id == "self" \
+                and ("self." + f.attr) in c.funcs:
+            routed = "self." + f.attr
+        if routed is not None:
+            return self.call_registered(routed, e, env)
+        if isinstance(f, ast.Name) and f.id == "sum" and len(e.args) == 1 and not e.keywords:
+            a = e.args[0]
+            if isinstance(a, ast.Call) and isinstance(a.func, ast.Attribute) and a.func.attr == "values" and not a.args:
+                b, t, ty = self.expr(a.func.value, env)
+                self.need(ty, "dict_sn")
+                return b, f"(dsum ops {t})", "num"
+            raise Unsupported("sum form")
+        if isinstance(f, ast.Name) and f.id == "float" and len(e.args) == 1 and not e.keywords:
+            b, t, ty = self.expr(e.args[0], env)
+            self.need(ty, "num")
+            return b, f"(nfloat ops {t})", "num"
+        if e.keywords and not (isinstance(f, ast.Name) and f.id in c.funcs):
             raise Unsupported("keyword arguments")
         # ---- methods
         if isinstance(f, ast.Attribute):
@@ -309,11 +393,36 @@ class FuncTr:
                 return b + [(nm, f"(s_int {t})")], nm, "int"
             raise Unsupported(f"int() of {ty}")
         if name in c.funcs:
+            return self.call_registered(name, e, env)
+        raise Unsupported(f"call to {name}")
+
+    def call_registered(self, name, e, env):
+        c = self.ctx
+        if name not in c.funcs:
+            raise Unsupported(f"call to untranslated {name}")
+        if True:
             cname, ptypes, rtype, extra = c.funcs[name]
-            if len(e.args) != len(ptypes):
-                raise Unsupported(f"arity of {name}")
+            pnames, defaults = c.signatures.get(name, (None, {}))
+            argnodes = list(e.args)
+            if e.keywords or len(argnodes) != len(ptypes):
+                if pnames is None:
+                    raise Unsupported(f"arity of {name}")
+                kw = {k.arg: k.value for k in e.keywords}
+                full = []
+                for i, pn in enumerate(pnames):
+                    if i < len(argnodes):
+                        full.append(argnodes[i])
+                    elif pn in kw:
+                        full.append(kw.pop(pn))
+                    elif pn in defaults:
+                        full.append(defaults[pn])
+                    else:
+                        raise Unsupported(f"missing argument {pn} of {name}")
+                if kw:
+                    raise Unsupported(f"unknown keyword for {name}")
+                argnodes = full
             binds, terms = [], []
-            for a, pt in zip(e.args, ptypes):
+            for a, pt in zip(argnodes, ptypes):
                 b, t, ty = self.expr(a, env)
                 if ty != pt and not (pt == "pyval" and ty in ("str", "int")):
                     raise Unsupported(f"argument type {ty} for {name} (wants {pt})")
@@ -327,7 +436,6 @@ class FuncTr:
                 return binds, f"({cname} {' '.join(extra + terms)})".replace("  ", " "), rtype[5:]
             nm = c.gensym("r")
             return binds + [(nm, f"({cname} {' '.join(extra + terms)})")], nm, rtype
-        raise Unsupported(f"call to {name}")
 
     # ------------------------------------------------------------ statements
     def block(self, stmts, env, cont=None):
@@ -365,6 +473,10 @@ class FuncTr:
                 tgt, val = s.target, s.value
                 if val is None:
                     return self.block(rest, env, cont)     # bare annotation
+            if isinstance(val, ast.Dict) and not val.keys and isinstance(tgt, ast.Name):
+                env2 = dict(env)
+                env2[tgt.id] = ("[]", "dict_sn")
+                return self.block(rest, env2, cont)
             b, t, ty = self.expr(val, env)
             env2 = dict(env)
             if isinstance(tgt, ast.Name):
@@ -383,6 +495,40 @@ class FuncTr:
             fake = ast.Assign(targets=[s.target], value=ast.BinOp(left=ast.Name(id=s.target.id, ctx=ast.Load()),
                                                                    op=s.op, right=s.value))
             return self.block([fake] + rest, env, cont)
+        if isinstance(s, ast.For):
+            # D = {} ... for k, v in X.items(): <stmts>; D[k] = e      ->  D := dmap_res (fun k v => ...) X
+            if s.orelse or not (isinstance(s.target, ast.Tuple) and len(s.target.elts) == 2
+                                and all(isinstance(x, ast.Name) for x in s.target.elts)):
+                raise Unsupported("for loop form")
+            it = s.iter
+            if not (isinstance(it, ast.Call) and isinstance(it.func, ast.Attribute) and it.func.attr == "items" and not it.args):
+                raise Unsupported("for loop iterable")
+            last = s.body[-1]
+            kname, vname = s.target.elts[0].id, s.target.elts[1].id
+            if not (isinstance(last, ast.Assign) and len(last.targets) == 1 and isinstance(last.targets[0], ast.Subscript)
+                    and isinstance(last.targets[0].value, ast.Name) and isinstance(last.targets[0].slice, ast.Name)
+                    and last.targets[0].slice.id == kname):
+                raise Unsupported("for loop body does not end in D[k] = e")
+            dname = last.targets[0].value.id
+            if dname not in env or env[dname] != ("[]", "dict_sn"):
+                raise Unsupported("for loop target dict is not a fresh {}")
+            for n in ast.walk(ast.Module(body=s.body[:-1] + [ast.Expr(last.value)], type_ignores=[])):
+                if isinstance(n, ast.Name) and n.id == dname:
+                    raise Unsupported("for loop body reads the dict under construction")
+            bd, td, tyd = self.expr(it.func.value, env)
+            self.need(tyd, "dict_sn")
+            kv, vv = self.ctx.gensym(kname), self.ctx.gensym(vname)
+            env2 = dict(env)
+            env2[kname] = (kv, "str")
+            env2[vname] = (vv, "num")
+            saved = self.ret_types
+            self.ret_types = set()
+            body = self.block(s.body[:-1] + [ast.Return(value=last.value)], env2, None)
+            self.ret_types = saved
+            nv = self.ctx.gensym(dname)
+            env3 = dict(env)
+            env3[dname] = (nv, "dict_sn")
+            return self.wrap(bd, f"(bind (dmap_res (fun {kv} {vv} => {body}) {td}) (fun {nv} =>\n  {self.block(rest, env3, cont)}))")
         if isinstance(s, ast.If):
             # isinstance dispatch on a pyval
             iso = self.isinstance_chain(s, env)
@@ -508,5 +654,5 @@ class FuncTr:
             raise Unsupported(f"several return types {rts}")
         rt = ret or (rts.pop() if rts else "str")
         ptxt = " ".join(f"({n} : {coq_type(t)})" for n, t in self.extra_params + plist)
-        text = f"Definition {coq_name} {ptxt} : res {coq_type(rt)} :=\n  {body}.\n"
+        text = f"Definition {coq_name} {ptxt} : res ({coq_type(rt)}) :=\n  {body}.\n"
         return text, [t for _, t in plist], rt
